@@ -3,7 +3,7 @@ from .. import core, fm, km, mc, ref
 from ..core import Failure
 from .c01 import minimise, NAMINGS, scope_iter
 
-FORMS = ['obj', 'text', 'str', 'shared']
+FORMS = ['obj', 'text', 'str', 'shared', 'raw']
 
 
 def routes(f, acc=None, under_temporal=False):
@@ -33,7 +33,7 @@ def check_ctls(inp):
     M = ref.Model(K)
     exp = ref.star_eval(M, f)
     out = mc.call('CTLS', K, f, inp.get('naming', 'int'), inp.get('how', 0),
-                  form=inp.get('form', 'obj'), atoms=inp.get('atoms'))
+                  form=inp.get('form', 'obj'), atoms=inp.get('atoms'), containers=inp.get('containers', 'list'))
     if out == ('set', exp):
         return None
     note = ''
@@ -182,7 +182,8 @@ def enum_shard(st, shard, nshards, payload):
             how = idx % 6
             ai = (idx // 2) % len(fm.ATOM_MAPS)
             amap = fm.atom_map(ai)
-            kripke = km.to_lib(km.rename_labels(K, amap), naming, how)
+            cont = 'shared' if idx % 4 == 3 else 'list'
+            kripke = km.to_lib(km.rename_labels(K, amap), naming, how, cont)
             back = dict((km.name_of(naming)(i), i) for i in range(n))
             memo = {}
             for fi, f in enumerate(forms):
@@ -192,7 +193,7 @@ def enum_shard(st, shard, nshards, payload):
                 try:
                     ok_ = (fi, ai if amap else None)
                     if ok_ not in objs:
-                        objs[ok_] = fm.to_lib(fm.rename_atoms(f, amap), L, share={} if fi % 2 else None)
+                        objs[ok_] = fm.to_lib(fm.rename_atoms(f, amap), L, raw_leaves=(fi % 3 == 2), share={} if fi % 2 else None)
                     with core.quiet():
                         res = L.modelcheck(kripke, objs[ok_])
                     out = mc.normalise(res, back)
@@ -206,7 +207,7 @@ def enum_shard(st, shard, nshards, payload):
                 for r in rts[fi]:
                     st.bump('route: ' + r)
                 if out != ('set', exp):
-                    inp = {'K': K, 'f': f, 'naming': naming, 'how': how, 'form': 'shared' if fi % 2 else 'obj', 'atoms': ai}
+                    inp = {'K': K, 'f': f, 'naming': naming, 'how': how, 'form': 'raw' if fi % 3 == 2 else ('shared' if fi % 2 else 'obj'), 'atoms': ai, 'containers': cont}
                     fresh = check_ctls(inp)
                     if fresh is None:
                         st.add_extra('mismatch_only_with_reused_structure')
@@ -284,6 +285,7 @@ def random_shard(st, shard, nshards, payload):
         'naming': hs.sampled_from(NAMINGS),
         'how': hs.integers(0, 5),
         'atoms': hs.integers(0, len(fm.ATOM_MAPS) - 1),
+        'containers': hs.sampled_from(['list', 'list', 'set', 'tuple', 'shared']),
         'form': hs.sampled_from(FORMS),
         'extra': hs.integers(0, 600),
     })
